@@ -153,6 +153,14 @@ func runC05(c *mon.Ctx) {
 		try(dec, k, cp()[:24], mut{"empty-body", 0, n, srv})
 		try(dec, k, cp()[:8], mut{"only-key-id", 0, n, srv})
 		try(dec, k, []byte{}, mut{"empty", 0, n, srv})
+		// a receiver key whose cached id is unset (AuthKey{Value: k}) must not make the auth_key_id check vanish:
+		// flipped key ids are still different bytes from what the peer produced
+		noID := crypto.AuthKey{Value: k.Value}
+		for _, bit := range []int{0, 7, 31, 63} {
+			w := cp()
+			w[bit/8] ^= 1 << (bit % 8)
+			try(dec, noID, w, mut{"flip-key-id/receiver-key-without-cached-id", bit, n, srv})
+		}
 		// reflection: the encrypting side decrypts its own message
 		try(same, k, cp(), mut{"reflection", 0, n, srv})
 		// foreign key: receiver holds another key
